@@ -208,6 +208,14 @@ def check(case, ctx):
     except Exception as e:
         ctx.violation('build-failed', f'{type(e).__name__}: {e}'); return
     if case['requires_grad']: ctx.label('requires-grad')
+    # pristine copies taken before any query: '==' must keep holding (it also sees state that the accessors used by the
+    # snapshots do not show, e.g. an entry for a rule-less nonterminal appearing in the rule table)
+    try:
+        pristine = {k: g.copy() for k, g in fgg.items()}
+        if not ctx.require(all(pristine[k] == fgg[k] and fgg[k] == pristine[k] for k in fgg), 'copy-not-equal', 'a fresh copy differs from its original'):
+            return
+    except Exception as e:
+        ctx.violation('copy-failed', f'{type(e).__name__}: {e}'); return
     first = {}
     order = []
     nontrivial = False
@@ -223,6 +231,9 @@ def check(case, ctx):
               'fgg_to_json': 'json', 'hrg_to_json': 'json'}.get(q['q'], q['q'])
         ctx.label('q:' + qn, 'query-raised' if res[0] == 'raised' else None)
         if not ctx.require(before == after, 'argument-mutated', f'query {qi} {q}: ' + diff_snap(before, after), query=q['q']):
+            return
+        if not ctx.require(all(pristine[k] == fgg[k] and fgg[k] == pristine[k] for k in fgg), 'argument-mutated',
+                           f'query {qi} {q}: the grammar no longer equals the copy taken before the first query', query=q['q']):
             return
         if key in first:
             if not ctx.require(first[key] == res, 'result-not-reproducible', f'query {qi} {q}: result differs from the first time it was asked: {str(first[key])[:400]} vs {str(res)[:400]}', query=q['q']):
